@@ -10,7 +10,9 @@ META = {
                  "filters of the four kinds, set-level rules + the stream filter stepped message by message on every "
                  "stream) + every TLC-enumerated filter set replayed on the real code: match_filters on the container "
                  "built by StreamContext::from(JSON) and on the enabled-only container the search/export code builds, and "
-                 "filter_as_streams through real std::sync::mpsc channels (filter list from JSON or from a DLF file); "
+                 "filter_as_streams through real std::sync::mpsc channels (filter list from JSON, from a DLF file in which every "
+                 "filter carries the full element set, or from a reduced DLF file in which later filters omit elements of "
+                 "earlier ones); "
                  "observations that differ from TLC's prediction, a random sample of the others and seeded random larger "
                  "sets/streams are validated by TLC against the contract FilterSetTrace.tla",
     "design_ref": "DESIGN.md section 6, C12",
@@ -166,6 +168,10 @@ def check(ctx):
     info = drive(binp, ["--tables", ctx.path("tables.json"), "--scenarios", scn, "--seed", str(ctx.seed), "--random", str(nrand),
                         "--sample", "120" if quick else "600", "--max-len", "40" if quick else "200"], trace)
     st = info["stats"]
+    paths["dlf_files_minimal_filter_after_fuller"] = st.get("stream_filters_from_dlf_minimal_later_filter_omits_elements", 0)
+    paths["dlf_files_full_element_set"] = st.get("stream_filters_from_dlf_full", 0)
+    if not paths["dlf_files_minimal_filter_after_fuller"] or not paths["dlf_files_full_element_set"]:
+        raise c.ToolError("vacuity: no multi-filter DLF file with a later filter that omits elements of an earlier one (or none with the full element set)")
     # (e) TLC validates every recorded case against the contract
     v = c.validate_trace(ctx, "filterset", "FilterSetTrace.tla", trace, timeout=3000, xmx="8g")
     ctx.add_tlc("trace-validation", v.res)
